@@ -42,7 +42,7 @@ def cases(tier, seed):
         start = R.choice([1, 2, 2, 3] if tier == "quick" else [1, 2, 3, 3, 4])
         out.append(dict(t="cascade", fmt=fmt, mode=mode, start=start, pop=R.choice(["one", "perquad", "half", "all", "clustered", "scattered"]),
                         par=R.choice([2, 4] if tier == "quick" else [2, 4, 16]), filt=R.choice([None, None, "posset", "box"]),
-                        writer=R.choice(["independent", "toasty"]), via=("cli" if i % 9 == 0 else "api"), profile=R.choice(["natural", "straggler", "slow_dispatcher", "jitter"]),
+                        writer=R.choice(["independent", "toasty"]), via=("cli" if i % 9 == 0 else "api"), profile=R.choice(["natural", "straggler", "slow_dispatcher", "jitter", "slow_feeder", "late_check", "stall", "heavy_tail", "slow_feeder"]),
                         seed=R.randrange(1 << 30)))
     # directed: a populated layer whose every leaf is entirely undefined -> no parent may exist, up to the root
     for fmt, mode in (("npy", "F32"), ("fits", "F64"), ("png", "RGBA"), ("npy", "RGBA"), ("npy", "F16x3"), ("fits", "F32")):
